@@ -165,7 +165,9 @@ pub fn random_order(r: &mut Rng, id: OrderId, price: u64, zero_ok: bool, big: bo
     let amt = match r.below(6) { 0 | 1 => None, 2 => Some(0), 3 => Some(1), _ => Some(r.below(30)) };
     let auto = r.chance(2, 3);
     let side = if r.chance(1, 2) { Side::Buy } else { Side::Sell };
-    let ts = if r.chance(1, 8) { 0 } else { r.below(12) };
+    // timestamps: small, 0 ("unstamped"), and - one in ten - ahead of any wall clock (a caller's clock skew,
+    // micro/nanosecond stamps, u64::MAX): legal values of an unvalidated u64 field
+    let ts = if r.chance(1, 8) { 0 } else if r.chance(1, 10) { *r.pick(&[u64::MAX, 4_102_444_800_000, 1_790_000_000_000_000, u64::MAX - 1]) } else { r.below(12) };
     let tif = *r.pick(&[TimeInForce::Gtc, TimeInForce::Gtc, TimeInForce::Ioc, TimeInForce::Fok, TimeInForce::Day, TimeInForce::Gtd(99)]);
     mk_order(kind, id, price, vis, hid, thr, amt, auto, side, ts, tif)
 }
@@ -173,7 +175,7 @@ pub fn random_order(r: &mut Rng, id: OrderId, price: u64, zero_ok: bool, big: bo
 /// E-seq (DESIGN §4.2): sequential histories on one level. The generator drives a private copy of
 /// the real level only to learn which ids are live (so that ids stay unique among resting orders
 /// and sums stay below 2^64, as the properties' quantifier demands).
-pub fn gen_seq(seed: u64, ncases: u64, maxlen: u64, zero_ok: bool, rebuilds: bool, out: &Sink) {
+pub fn gen_seq(seed: u64, ncases: u64, maxlen: u64, zero_ok: bool, rebuilds: bool, offprice: bool, out: &Sink) {
     let mut r0 = Rng::new(seed ^ 0x5345_5100);
     for case in 0..ncases {
         let mut r = r0.fork();
@@ -199,6 +201,41 @@ pub fn gen_seq(seed: u64, ncases: u64, maxlen: u64, zero_ok: bool, rebuilds: boo
             out.push(format!("newgen {c} {ns}"));
         }
         let mut total: u128 = 0; // everything ever supplied (upper bound for sums)
+        if zero_ok && !rebuilds && r.chance(1, 6) {
+            // set-aside scenario: several makers with nothing on display and a hidden part (a match steps over
+            // them and re-queues them), a match, then same-price amends that give them a display again, a match
+            let k = r.range(2, 4);
+            let mut idsv = Vec::new();
+            for i in 0..k {
+                let id = pool_id(40 + i);
+                let o = mk_order(5, id, price, 0, r.range(3, 20), 0, None, true, Side::Sell, 1 + i, TimeInForce::Gtc);
+                total += o.hidden_quantity() as u128;
+                out.push(format!("add {}", show_order(&o)));
+                lvl.add_order(o);
+                idsv.push(id);
+            }
+            if r.chance(1, 2) {
+                let o = mk_order(0, pool_id(49), price, r.range(1, 6), 0, 0, None, true, Side::Sell, 9, TimeInForce::Gtc);
+                total += o.visible_quantity() as u128;
+                out.push(format!("add {}", show_order(&o)));
+                lvl.add_order(o);
+            }
+            let taker = pool_id(900);
+            let q = r.range(1, 12);
+            out.push(format!("match {} {}", q, show_id(&taker)));
+            let _ = lvl.match_order(q, taker, &generator);
+            if r.chance(1, 2) { idsv.reverse(); }
+            for id in &idsv {
+                let n = r.range(1, 6);
+                total += n as u128;
+                out.push(format!("upd qty {} {}", show_id(id), n));
+                out.push("state".to_string());
+                let _ = lvl.update_order(pricelevel::OrderUpdate::UpdateQuantity { order_id: *id, new_quantity: n });
+            }
+            let q = r.range(1, 8);
+            out.push(format!("match {} {}", q, show_id(&taker)));
+            let _ = lvl.match_order(q, taker, &generator);
+        }
         for _ in 0..len {
             let live: Vec<OrderId> = lvl.iter_orders().iter().map(|o| o.id()).collect();
             if rebuilds && r.chance(1, 12) {
@@ -224,10 +261,10 @@ pub fn gen_seq(seed: u64, ncases: u64, maxlen: u64, zero_ok: bool, rebuilds: boo
                 let cands: Vec<OrderId> = (1..=npool).map(pool_id).filter(|i| !live.contains(i)).collect();
                 if cands.is_empty() { continue; }
                 let id = if rebuilt { fresh += 1; pool_id(fresh) } else { *r.pick(&cands) };
-                // with rebuilds (E-seqr) one order in six carries a price other than the level's: legal
+                // with `offprice` (E-seqr, E-seqp) one order in six carries a price other than the level's: legal
                 // (add_order does not look at it) and every rebuild route must keep it and the level's own price
                 let rnd_price = r.range(1, 1 << 20);
-                let oprice = if rebuilds && r.chance(1, 6) { *r.pick(&[price + 1, price.saturating_sub(1), 0, rnd_price]) } else { price };
+                let oprice = if offprice && r.chance(1, 6) { *r.pick(&[price + 1, price.saturating_sub(1), 0, rnd_price]) } else { price };
                 let o = random_order(&mut r, id, oprice, zero_ok, big);
                 let supplied = o.visible_quantity() as u128 + o.hidden_quantity() as u128;
                 if (total + supplied) * (price.max(oprice).max(1 << 20) as u128) >= (1u128 << 63) { continue; }
